@@ -386,4 +386,193 @@ theorem Bvd.fromBytes_size (bytes : List Nat) (big : Bool) :
   simp only [byt_loop_size, Array.size_replicate]
   cases big <;> simp
 
+-- ---- `Bvf::from_bytes` -------------------------------------------------------------------------------
+/-- the data computed by `Bvf::from_bytes` (all four loops) is the canonical loop -/
+theorem Bvf.fromBytes_eq_loop (m N : Nat) (bytes : List Nat) (big : Bool)
+    (hc : bytes.length * 8 ≤ N * (8 * m)) :
+    Bvf.fromBytes (8 * m) N bytes big = .ok
+      ⟨byt_loop m (fun e => (if big then bytes.reverse else bytes).getD e 0)
+        (Array.replicate N 0#(8 * m)) 0 (if big then bytes.reverse else bytes).length,
+       (if big then bytes.reverse else bytes).length * 8⟩ := by
+  unfold Bvf.fromBytes
+  have hbu : 8 * m / 8 = m := Nat.mul_div_cancel_left m (by decide)
+  have hnc : ¬ bytes.length * 8 > N * (8 * m) := by omega
+  simp only [hbu, if_neg hnc]
+  have hlen : (if big then bytes.reverse else bytes).length = bytes.length := by
+    cases big <;> simp
+  rw [hlen]
+  congr 2
+  cases big
+  · -- little endian
+    simp only [Bool.not_false, if_true, Bool.false_eq_true, if_false]
+    by_cases h1 : m = 1
+    · subst h1
+      rw [if_pos rfl, ← byt_foldr_eq]
+      congr 1
+      funext p a
+      simp only [Nat.div_one]
+      rw [BitVec.shiftLeft_eq_zero (by omega), BitVec.zero_or]
+    · rw [if_neg h1, ← byt_foldr_eq]
+  · -- big endian
+    simp only [Bool.not_true, Bool.false_eq_true, if_false, if_true]
+    have e := byt_foldl_eq (w := 8 * m) m bytes (fun i => (bytes.length - 1 - i) / m)
+      (Array.replicate N 0#(8 * m)) (fun _ _ => rfl)
+    by_cases h1 : m = 1
+    · subst h1
+      rw [if_pos rfl, ← e]
+      congr 1
+      funext a p
+      simp only [Nat.div_one]
+      rw [BitVec.shiftLeft_eq_zero (by omega), BitVec.zero_or]
+    · rw [if_neg h1, ← e]
+
+theorem Bvf.fromBytes_ok (N : Nat) (bytes : List Nat) (big : Bool) (h8 : 8 ∣ w) (hw : 0 < w)
+    (hb : ∀ b ∈ bytes, b < 256) (hc : bytes.length * 8 ≤ N * w) :
+    ∃ r, Bvf.fromBytes w N bytes big = .ok r ∧ r.Inv ∧ r.abs = BV.fromBytes bytes big ∧ r.data.size = N ∧
+      r.length = bytes.length * 8 := by
+  obtain ⟨m, rfl⟩ := h8
+  have hm : 0 < m := by omega
+  refine ⟨_, Bvf.fromBytes_eq_loop m N bytes big hc, ?_⟩
+  have hL : ∀ b ∈ (if big then bytes.reverse else bytes), b < 256 := by
+    cases big
+    · simpa using hb
+    · simpa using hb
+  have hlen : (if big then bytes.reverse else bytes).length = bytes.length := by
+    cases big <;> simp
+  have := byt_loop_refines m N (if big then bytes.reverse else bytes) hm hL (by rw [hlen]; exact hc)
+  refine ⟨this.1, ?_, ?_, ?_⟩
+  · rw [this.2]
+    unfold BV.fromBytes
+    rw [hlen]
+  · simp only [byt_loop_size, Array.size_replicate]
+  · simp only [hlen]
+
+theorem Bvf.fromBytes_err (N : Nat) (bytes : List Nat) (big : Bool) (hc : N * w < bytes.length * 8) :
+    Bvf.fromBytes w N bytes big = .err "NotEnoughCapacity" := by
+  unfold Bvf.fromBytes
+  simp only [if_pos (show bytes.length * 8 > N * w from hc)]
+
+-- ---- `read` --------------------------------------------------------------------------------------------
+/-- masking a `from_bytes` result down to `length` bits -/
+theorem byt_read_refines {w2 : Nat} (bv : Raw w2) (d : Array (BitVec w2)) (v length : Nat) (hw : 0 < w2)
+    (habs : bv.abs.val = v) (hcap : length ≤ d.size * w2)
+    (hd : ∀ i, bitAt d i = (bitAt bv.data i && decide (i < length))) :
+    (⟨d, length⟩ : Raw w2).Inv ∧ (⟨d, length⟩ : Raw w2).abs = ⟨length, v % 2 ^ length⟩ := by
+  apply refines_of_bits _ _ hw rfl hcap
+  · intro i hi
+    simp only at hi
+    simp only [BV.bit, Nat.testBit_mod_two_pow]
+    simp; omega
+  · intro i
+    simp only [BV.bit, Nat.testBit_mod_two_pow]
+    rw [hd, ← Raw.abs_bit bv i hw, BV.bit, habs, Bool.and_comm]
+
+theorem Bvf.read_invalid (N : Nat) (input : List Nat) (length : Nat) (big : Bool) (h : N * w < length) :
+    Bvf.read w N input length big = .err "InvalidInput" := by
+  unfold Bvf.read
+  rw [if_pos (show length > N * w from h)]
+
+theorem Bvf.read_eof (N : Nat) (input : List Nat) (length : Nat) (big : Bool) (h : length ≤ N * w)
+    (hs : input.length < (length + 7) / 8) :
+    Bvf.read w N input length big = .err "UnexpectedEof" := by
+  unfold Bvf.read
+  rw [if_neg (show ¬ length > N * w by omega)]
+  simp only [if_pos hs]
+
+theorem Bvf.read_ok (N : Nat) (input : List Nat) (length : Nat) (big : Bool) (h8 : 8 ∣ w) (hw : 0 < w)
+    (hb : ∀ b ∈ input, b < 256) (h : length ≤ N * w) (hs : (length + 7) / 8 ≤ input.length) :
+    ∃ r, Bvf.read w N input length big = .ok (r, input.drop ((length + 7) / 8)) ∧ r.Inv ∧
+      r.abs = ⟨length, (BV.fromBytes (input.take ((length + 7) / 8)) big).val % 2 ^ length⟩ ∧
+      r.data.size = N ∧ r.length = length := by
+  have hlen : (input.take ((length + 7) / 8)).length = (length + 7) / 8 := by
+    rw [List.length_take]; omega
+  have hcap : (input.take ((length + 7) / 8)).length * 8 ≤ N * w := by
+    rw [hlen]
+    obtain ⟨m, rfl⟩ := h8
+    rw [Nat.mul_left_comm] at h ⊢
+    omega
+  obtain ⟨bv, h1, h2, h3, h4, _⟩ := Bvf.fromBytes_ok (w := w) N (input.take ((length + 7) / 8)) big h8 hw
+    (fun b hb' => hb b (List.mem_of_mem_take hb')) hcap
+  refine ⟨⟨mod2n bv.data length, length⟩, ?_, ?_⟩
+  · unfold Bvf.read
+    rw [if_neg (show ¬ length > N * w by omega)]
+    simp only [if_neg (show ¬ input.length < (length + 7) / 8 by omega), h1]
+  · have := byt_read_refines bv (mod2n bv.data length) _ length hw (congrArg BV.val h3)
+      (by rw [size_mod2n, h4]; exact h) (fun i => bitAt_mod2n bv.data length i hw)
+    refine ⟨this.1, this.2, ?_, rfl⟩
+    simp only [size_mod2n, h4]
+
+theorem Bvd.read_eof (input : List Nat) (length : Nat) (big : Bool)
+    (hs : input.length < (length + 7) / 8) :
+    Bvd.read input length big = .err "UnexpectedEof" := by
+  unfold Bvd.read
+  simp only [if_pos hs]
+
+theorem Bvd.read_ok (input : List Nat) (length : Nat) (big : Bool)
+    (hb : ∀ b ∈ input, b < 256) (hs : (length + 7) / 8 ≤ input.length) :
+    ∃ r, Bvd.read input length big = .ok (r, input.drop ((length + 7) / 8)) ∧ r.Inv ∧
+      r.abs = ⟨length, (BV.fromBytes (input.take ((length + 7) / 8)) big).val % 2 ^ length⟩ ∧
+      r.length = length := by
+  have hlen : (input.take ((length + 7) / 8)).length = (length + 7) / 8 := by
+    rw [List.length_take]; omega
+  obtain ⟨h2, h3⟩ := Bvd.fromBytes_refines (input.take ((length + 7) / 8)) big
+    (fun b hb' => hb b (List.mem_of_mem_take hb'))
+  obtain ⟨h4, h5⟩ := Bvd.fromBytes_size (input.take ((length + 7) / 8)) big
+  rw [hlen] at h4 h5
+  refine ⟨⟨Bvd.maskLast (Bvd.fromBytes (input.take ((length + 7) / 8)) big).data length, length⟩, ?_, ?_⟩
+  · unfold Bvd.read
+    simp only [if_neg (show ¬ input.length < (length + 7) / 8 by omega)]
+  · have hsz : (Bvd.maskLast (Bvd.fromBytes (input.take ((length + 7) / 8)) big).data length).size
+        = ((length + 7) / 8 + 7) / 8 := by
+      unfold Bvd.maskLast; rw [Array.size_modify, h4]
+    have := byt_read_refines (Bvd.fromBytes (input.take ((length + 7) / 8)) big)
+      (Bvd.maskLast (Bvd.fromBytes (input.take ((length + 7) / 8)) big).data length) _ length
+      (by decide) (congrArg BV.val h3) (by rw [hsz]; omega)
+      (fun i => by
+        unfold Bvd.maskLast
+        apply bitAt_modify_lastBits _ _ _ _ (by decide)
+        · intro hne; rw [h4]; omega
+        · intro j hj
+          apply h2.2
+          rw [h5]
+          unfold capFromBitLen at hj
+          omega)
+    exact ⟨this.1, this.2, rfl⟩
+
+/-- the error cases of `Bvf::read` are exactly these (the `ok` case is `Bvf.read_ok`) -/
+theorem Bvf.read_spec (N : Nat) (input : List Nat) (length : Nat) (big : Bool) (h8 : 8 ∣ w) (hw : 0 < w)
+    (hb : ∀ b ∈ input, b < 256) :
+    (Bvf.read w N input length big = .err "InvalidInput" ↔ N * w < length) ∧
+    (Bvf.read w N input length big = .err "UnexpectedEof" ↔
+      length ≤ N * w ∧ input.length < (length + 7) / 8) ∧
+    ((∃ p, Bvf.read w N input length big = .ok p) ↔ length ≤ N * w ∧ (length + 7) / 8 ≤ input.length) := by
+  by_cases h1 : N * w < length
+  · rw [Bvf.read_invalid N input length big h1]
+    refine ⟨by simp [h1], ?_, ?_⟩
+    · simp; omega
+    · simp; omega
+  · by_cases h2 : input.length < (length + 7) / 8
+    · rw [Bvf.read_eof N input length big (by omega) h2]
+      refine ⟨by simp [h1], ?_, ?_⟩
+      · simp; omega
+      · simp; omega
+    · obtain ⟨r, hr, _⟩ := Bvf.read_ok N input length big h8 hw hb (by omega) (by omega)
+      rw [hr]
+      refine ⟨by simp [h1], ?_, ?_⟩
+      · simp; omega
+      · simp; omega
+
+/-- the error case of `Bvd::read` (the `ok` case is `Bvd.read_ok`) -/
+theorem Bvd.read_spec (input : List Nat) (length : Nat) (big : Bool) :
+    (Bvd.read input length big = .err "UnexpectedEof" ↔ input.length < (length + 7) / 8) ∧
+    ((∃ p, Bvd.read input length big = .ok p) ↔ (length + 7) / 8 ≤ input.length) := by
+  by_cases h2 : input.length < (length + 7) / 8
+  · rw [Bvd.read_eof input length big h2]
+    refine ⟨by simp [h2], ?_⟩
+    simp; omega
+  · unfold Bvd.read
+    simp only [if_neg h2]
+    refine ⟨by simp [h2], ?_⟩
+    simp; omega
+
 end Bva
